@@ -44,6 +44,14 @@ CHECKS = {
    text="Every successful output of the C07 enumeration, of whole_font over all 2^k subsets of the tag list of three small fonts, of variations::instance at every {min, default, max, midpoints}^axes combination of five variable fixtures, and fonts rebuilt from WOFF2-reconstructed tables is checked by an independent validator: sorted directory, search fields, alignment, no overlap/gaps, zero padding, table checksums, checkSumAdjustment, file length, and maxp/hhea/hmtx/head/loca/glyf/cmap/post/CFF mutual consistency; then the library loads it and queries every glyph.",
    note="Trusted: otmodel::sfnt::validate + otmodel::read::validate_font written from the OpenType specification; a padded loca in a null-transformed WOFF2 is attributed to the source font.",
    technique="exhaustive enumeration of writer inputs; independent structural and cross-table validator on every output"),
+ "C01": dict(engine="mcx-fault-shards", cat="fault_enumeration",
+   text="For every seed font (quick: 15 representative fixtures covering TrueType, composite, symbol, CFF2, variable, sbix, SVG, WOFF, WOFF2 plus every synthetic seed for table kinds no small fixture has; thorough: all ~300 fixture fonts of /repo/tests and all synthetic seeds) every single fault of the plan is applied and the whole battery of ~40 public entry points (loading, table access, cmap lookups and enumeration, glyph names, metrics, glyf/CFF/CFF2 outlines, embedded images, subset / prince::subset / whole_font, variations::instance at several tuples, shaping) is run on the mutant in an isolated worker: byte faults {00,01,7F,80,FF,b+-1,b^80} at every offset, u16 faults {0,1,7FFF,8000,FFFF,v+-1} at every even offset, u32 faults at every aligned offset, every truncation, every table removed / emptied / re-tagged / swapped (thorough: all positions of seeds <= 8 KB, directory + first 64 bytes of every table for larger ones; quick: directory + first 64 bytes of every table); bound 2 = all coupled pairs of u16 positions of the small synthetic seeds. WOFF-wrapped variants push the same faults behind the decompressor.",
+   note="Trusted: panic hook / signal handlers / counting allocator (cap 256 MiB + 4096 x input) / CPU-time watchdog (4 s of process CPU per case, wall fallback 30x, confirmed by a solitary re-run) attribute every abnormal end to one case; fault values come from boundary menus, not all 2^8/2^16/2^32 values; three or more simultaneous faults are not explored; a run that hits its wall cap reports the cases it did not reach and sets exhaustive=false.",
+   technique="exhaustive enumeration of fault sequences (bound 1 everywhere, bound 2 on coupled pairs) over real entry points in isolated worker processes with crash, allocation and time monitors"),
+ "C05": dict(engine="mcx-choice-tree", cat="model_checking",
+   text="A catalogue of ~6900 abstract GPOS programs over an 8-glyph universe (SinglePos 1/2 with all 16 static value formats x 8 lookup-flag settings and device/variation formats; PairPos 1/2 with all 16x16 value-format pairs; CursivePos; MarkBase/MarkLig/MarkMark with 1-2 classes, null anchors, anchor formats 1-3; Context/ChainContext with nested records; multi-lookup combinations) is encoded by an independent encoder under every encoding with <= 1 (thorough 2) non-default choices (Coverage 1/2, ClassDef 1/2, Extension) and run through gpos::apply_features, Font::shape and GlyphLayout::glyph_positions (both directions, two hmtx variants) on every glyph string up to length 3 (context/combination programs 4; thorough 4-5) over {a,b,L,m1,m2} x ligature-component assignments x 6 variation tuples; Info.kerning/placement and the absolute pen positions are compared with a reference positioner written from the OpenType GPOS chapter. kern tables (format 0 and 2, coverage bits, several subtables) x all strings through apply_fallback and Font::shape against a byte-level reference reader.",
+   note="Trusted: otmodel::gposenc encoders and reference positioner; documented drawing convention for right-to-left; where the specification is silent (kern 'minimum', unattached glyphs between cursive partners) the set of legitimate outcomes is accepted (listed as assumptions in the evidence); known deviations are attributed only when allsorts' output equals the reference run with exactly that deviation switched on.",
+   technique="exhaustive choice-tree enumeration of positioning programs x encodings x strings x directions against an independent reference positioner"),
 }
 
 NOT_YET = {
